@@ -240,6 +240,13 @@ def c05_step(op, out, before, after):
             bad.append("'%s' names an existing member by its documented path but the removal failed" % op)
         if exp is False and r == "i1":
             bad.append("'%s' names no member but the removal succeeded" % op)
+    if cmd == "eset" and r == "n-" and int(f[3]) < 0:
+        # the documented convention: a negative index appends (any negative value, not only -1)
+        ppath = () if f[2] == "." else tuple(int(x) for x in f[2].split("/"))
+        bp = subtree_at(b_root, ppath)
+        kty = {"i": 2, "l": 3, "f": 4, "s": 5, "b": 6}.get(f[1])
+        if bp is not None and kty is not None and (int(bp.ty) == 8 or (int(bp.ty) == 7 and (not bp.kids or int(bp.kids[0].ty) == kty))):
+            bad.append("'%s': a negative index appends, but the call failed on an aggregate that accepts a %s element" % (op, f[1]))
     if cmd in ("add", "eset") and r == "n-" or cmd in ("rm", "rmi", "set", "setfmt") and r == "i0":
         if bsig != asig:
             bad.append("'%s' reported failure but changed the configuration" % op)
@@ -932,6 +939,11 @@ def c06_oracle(script, rec):
             base = f[1] if f[0] == "look" else "."
             pb = unhx(f[2] if f[0] == "look" else f[1])
             bp = () if base == "." else tuple(int(x) for x in base.split("/"))
+            if any(pb[i:i + 1] in gen_api.SEPS and pb[i + 1:i + 2] in gen_api.SEPS for i in range(len(pb) - 1)):
+                # an empty component between two separators names a member that cannot exist
+                if r != "n-":
+                    bad.append("'%s' (%r) has an empty component but resolved to %s" % (op, pb, r))
+                continue
             comps, ch = tnode_resolve(root, bp, pb)
             if comps is None:
                 continue
@@ -1063,6 +1075,17 @@ def c16_cases(rng, n):
                 out.append("get s %s" % tgt)
                 if f[0] == "eset":
                     out.append("eget s %s 0" % tgt)
+        if i % 4 == 1 and len(out) > 12:
+            # the destructor is unregistered (NULL) part of the way through, and in half of these registered again
+            k = rng.randrange(6, len(out) - 4)
+            while k < len(out) and out[k] != "dump":
+                k += 1
+            out[k + 1:k + 1] = ["dtor 0", "dump"]
+            if rng.random() < 0.5:
+                k2 = rng.randrange(k + 2, len(out))
+                while k2 < len(out) and out[k2] != "dump":
+                    k2 += 1
+                out[k2 + 1:k2 + 1] = ["dtor 1", "dump"]
         tail = rng.choice(["destroy", "clear\ndump\ndestroy", "reads %s\ndump\ndestroy" % hx(b"a = 1; b = \"x\";"),
                            "reads %s\ndump\ndestroy" % hx(b"a = ;")])
         cases.append("\n".join(out) + "\n" + tail + "\n")
@@ -1122,6 +1145,16 @@ C09_ALPHABET = [
 ]
 
 
+# what the documentation says each call of the alphabet reports (type, file, line), read off the test data by hand:
+# type 0 none / 1 file I/O / 2 parse; the file is the one that CONTAINS the error (NULL for strings and streams)
+C09_DOC = {
+    0: ("0", "-", "0"), 1: ("2", "-", "1"), 2: ("2", "-", "3"), 3: ("2", "-", "4"), 4: ("2", "-", "3"), 5: ("2", "-", "1"),
+    6: ("2", hx(b"inc_bad.cfg"), "3"), 7: ("2", hx(b"top_missing.cfg"), "4"), 8: ("0", "-", "0"),
+    9: ("1", "-", "0"), 10: ("1", "-", "0"), 11: ("0", "-", "0"), 12: ("1", "-", "0"), 13: ("1", "-", "0"),
+    14: ("2", hx(b"inc_bad2.cfg"), "3"),
+}
+
+
 def c09_cases(depth):
     import itertools
     for combo in itertools.product(range(len(C09_ALPHABET)), repeat=depth):
@@ -1175,6 +1208,11 @@ def run_c09(ctx):
             if len(ef) == 5 and ef[3] in sizes and int(ef[4]) > sizes[ef[3]]:
                 bad.append("after '%s' the error names file %s, which has %d lines, at line %s" % (
                     op.replace("\n", "; "), unhx(ef[3]), sizes[ef[3]], ef[4]))
+            if op in C09_ALPHABET and len(ef) == 5:
+                want = C09_DOC[C09_ALPHABET.index(op)]
+                if (ef[1], ef[3], ef[4]) != want:
+                    bad.append("after '%s' the error type/file/line are %s; the call's own error is type %s in file %s at line %s" % (
+                        op.replace("\n", "; "), (ef[1], ef[3], ef[4]), want[0], want[1], want[2]))
             if op in solo and e != solo[op]:
                 bad.append("after '%s' the error fields are %s; the same call on a fresh configuration reports %s" % (
                     op.replace("\n", "; "), e, solo[op]))
@@ -1305,7 +1343,8 @@ LEXEMES = [b"true", b"TRUE", b"fAlSe", b"truex", b"a", b"a-b", b"x_1*", b"*", b"
            b".", b"-.", b"+.5e3", b".5e-3", b"1e5", b"1E+5", b"1.5e", b"1e", b"1.e5", b".e5", b"1e999", b"-1e999", b"1e-999", b"1.7976931348623157e308",
            b"\"\"", b"\"a\"", b"\"a\\nb\"", b"\"\\a\\b\\v\\f\\r\\t\"", b"\"\\x41\\X7e\"", b"\"\\q\\\"", b"\"\\\\\"", b"\"\\x4\"",
            b"\"line1\nline2\"", b"=", b":", b",", b";", b"{", b"}", b"[", b"]", b"(", b")", b"#c\n", b"//c\n", b"/*c*/", b"/* a\n b */", b"/*",
-           b"\x07", b"\x08", b"\x0b", b"\x0c", b"\r", b"$", b"@", b"\x80", b"\xff", b"\x7f", b"!", b"@include", b"include"]
+           b"\x07", b"\x08", b"\x0b", b"\x0c", b"\r", b"$", b"@", b"\x80", b"\xff", b"\x7f", b"!", b"@include", b"include",
+           b"\n@include \"no\nsuch\"\n", b"\n@include \"a\\\\b\\\"c\"\n", b"\n@include \"\n\n\"", b"\n@include \"x.cfg\" y = 1;"]
 SEPS_LEX = [b"", b"", b" ", b"\t", b"\n", b" \n ", b";", b","]
 SOUP = b"0123456789+-.eExXLlTRUEtrufalsFabc_*\"\\ \t\n=:,;{}[]()#/*@\x07\x0b$\xe9"
 
@@ -1351,9 +1390,20 @@ def c18_oracle(script, rec):
             continue
         data = unhx(f[1]) or b""
         want = speclex.tokens(data)
-        if want and want[-1].startswith("INCLUDE"):
-            continue
         got = [l for l in ch if l.startswith(("K ", "R "))]
+        if want and want[-1].startswith("INCLUDE"):
+            # no file exists in these runs: the tokens before the directive, then an error located where the
+            # directive ends (every byte of the quoted path counts, line feeds included)
+            pre = want[:-1]
+            line = want[-1].split(" ")[2]
+            if got[:len(pre)] != pre:
+                d = first_diff(pre, got[:len(pre)])
+                bad.append("input %r: documented tokenisation gives %s, the scanner produced %s (token #%d)" % (
+                    data, d[1], d[2], d[0]))
+            elif len(got) > len(pre) and got[len(pre)].startswith("K E ") and got[len(pre)] != "K E " + line:
+                bad.append("input %r: the include directive ends on line %s, the scanner reports its failure with %s" % (
+                    data, line, got[len(pre)]))
+            continue
         if got != want:
             d = first_diff(want, got)
             bad.append("input %r: documented tokenisation gives %s, the scanner produced %s (token #%d)" % (
@@ -1404,7 +1454,7 @@ def c03_inputs(rng, n):
         elif k == 3:
             t = rng.choice([b"a = \"unterminated", b"/* unterminated", b"a = \"x\\", b"@include \"", b"@include \"nosuch\"\n",
                             b"@include \"adir\"\n", b"@include \"self.cfg\"\n", b"a = [1, \"x\"];", b"a=1;a=2;", b"a = 1e999;",
-                            b"@include \"a\\qb\"\n", b"\"", b"\\", b"a = (((((", b"a = 99999999999999999999;", b"a = 0x;"])
+                            b"@include \"a\\qb\"\n", b"@include \"a\nb\"\n", b"x = 1;\n@include \"inc\n.cfg\"\ny = 2;\n", b"\"", b"\\", b"a = (((((", b"a = 99999999999999999999;", b"a = 0x;"])
         elif k == 4:
             t = gen_text.rand_config(rng, size=rng.choice([500, 3000]))      # long valid input
         elif k == 5:
@@ -1732,8 +1782,8 @@ def run_c13(ctx):
             continue
         n = int(al[0].split(" ")[1])
         ks = list(range(1, n + 1))
-        if ctx.tier == "quick" and n > 120:
-            ks = sorted(set(list(range(1, 61)) + list(range(61, n + 1, 3)) + [n]))
+        if ctx.tier == "quick" and n > 600:
+            ks = sorted(set(list(range(1, 401)) + list(range(401, n + 1, 2)) + [n]))
         stats[name] = {"allocations": n, "faults_injected": len(ks)}
         for k in ks:
             rc, out = run_k(script, k)
@@ -1988,6 +2038,15 @@ def writer_cases(rng, ntrees, vectors, big=False):
         body.append("dump")
         for (o, tab, prec, dfmt) in vectors:
             body += ["options %d" % o, "tab %d" % tab, "prec %d" % prec, "deffmt %d" % dfmt, "write"]
+        if t % 3 == 0:
+            # the options toggled one at a time with config_set_option, from the defaults: each bit switched on and off,
+            # also when it already has the requested value (disable twice, enable twice)
+            body += ["options %d" % 0x16, "tab 2", "prec 6", "deffmt 0", "write"]
+            bits = [2, 4, 8, 16, 32]
+            for _ in range(8):
+                b = rng.choice(bits)
+                fl = rng.choice([0, 0, 1])
+                body += ["option %d %d" % (b, fl)] * rng.choice([1, 2]) + ["write"]
         cases.append("\n".join(body) + "\n")
     # deep chains: nesting x tab width well beyond any fixed indentation buffer (12 levels x 15 columns)
     for depth in (6, 9, 12):
@@ -2019,6 +2078,9 @@ def written_texts(script, lines):
         f = op.split(" ")
         if f[0] == "options":
             cur[0] = int(f[1])
+        elif f[0] == "option" and len(f) == 3:
+            # config_set_option: the flag decides the bit, whatever its value was
+            cur[0] = (cur[0] | int(f[1])) if int(f[2]) else (cur[0] & ~int(f[1]))
         elif f[0] == "tab":
             cur[1] = int(f[1]) % 65536
         elif f[0] == "prec":
@@ -2391,6 +2453,13 @@ def c10_cases(rng, nforests, max_files):
             "reads %s" % hx(text), "dump"]
         cases.append("\n".join(body) + "\n")
         meta[cases[-1]] = ("inline", top, f2)
+        # the documented reset: a custom include function is replaced by the default one (NULL argument)
+        body = ["init"] + ["fs put %s %s" % (hx(k), hx(v)) for k, v in files.items()] + [
+            "fs put %s %s" % (hx(b"top.cfg"), hx(top)),
+            rng.choice(["incfn fail %s" % hx(b"never called"), "incfn empty", "incfn null"]), "incfn default",
+            "readf %s" % hx(b"top.cfg"), "dump", "reads %s" % hx(text), "dump"]
+        cases.append("\n".join(body) + "\n")
+        meta[cases[-1]] = ("inline", top, files)
         # a custom include function returning several paths for the one directive of a small top file
         names = list(files.keys())
         if len(names) >= 2:
@@ -2418,6 +2487,8 @@ def c10_cases(rng, nforests, max_files):
     meta[cases[-1]] = ("errloc", (b"top.cfg", 2), None)
     cases.append("\n".join(forest_script(b"z = 0;\n@include \"x\"\n", {}, "readf", ["incfn fail %s" % hx(b"custom failure")])) + "\n")
     meta[cases[-1]] = ("errloc", (b"top.cfg", 2), None)
+    cases.append("\n".join(forest_script(b"z = 0;\n\n@include \"missing2.cfg\"\n", {}, "readf", ["incfn empty", "incfn default"])) + "\n")
+    meta[cases[-1]] = ("errloc", (b"top.cfg", 3), None)
     # later path of a multi-path include cannot be opened (known finding F13 on the unchanged tree)
     cases.append("\n".join(forest_script(b"\n\n@include \"x\"\n", {b"m1.cfg": b"q = 1;\n\n\n"}, "readf",
                                          ["incfn multi %s,%s" % (hx(b"m1.cfg"), hx(b"m2missing.cfg"))])) + "\n")
@@ -2682,6 +2753,10 @@ def c17_oracle(script, rec):
         got = out[0] if out else None
         if got is None:
             break                   # the process stopped here
+        if got.startswith("R it-disagree"):
+            bad.append("'%s': walking the children with %s does not visit them once, in order, as the plain "
+                       "begin()..end() loop does" % (line, got.split(" ")[2]))
+            continue
         if got.endswith(" CHANGED"):
             bad.append("%s: lookupValue returned false but modified its output argument" % line)
         if exp is None or exp == gen_cpp.UB:
